@@ -9,6 +9,7 @@ mod world;
 mod c14;
 mod c18;
 mod c19;
+mod c20;
 mod c30;
 
 fn main() {
@@ -18,6 +19,7 @@ fn main() {
         "C14" => c14::main(&args),
         "C18" => c18::main(&args),
         "C19" => c19::main(&args),
+        "C20" => c20::main(&args),
         "C30" => c30::main(&args),
         other => vcommon::machinery_failure(&format!("zbm: unknown property id {other}")),
     };
